@@ -53,3 +53,84 @@ Proof. exact state_monotone. Qed.
 Print Assumptions C12_never_panics.
 Print Assumptions C12_one_token_one_result.
 Print Assumptions C12_state_monotone.
+
+(** ---- trace-level statements (what holds once Stop has RETURNED, where an accepted task is,
+    backpressure and cancellation).
+    Vocabulary.
+    - [accepted x tr]: the trace contains the return of the submission of task x
+      with "accepted": Do / Execute returned, TryDo / TryExecute returned true.
+    - [returned x tr]: the submission of x has returned (any value).
+    - [results c tr x]: the results delivered to x's result channel so far:
+      those still in the channel, followed by those already received (the trace
+      records them: Await / PollRes returned a value).
+    - [res_ok x n r]: r is x's own value and n = 1, or r is the cancellation
+      result and n = 0 (n = number of executions of x).
+    - [stop_done c]: the state word is 2 and no thread is between Stop's CAS
+      and the end of its drain loop, i.e. the Stop call that won the CAS has
+      returned.  A second Stop call racing with the first returns at once
+      ([PoolSafeExamples.second_stop_returns_early]), so "some Stop call has
+      returned" alone is NOT enough; it is enough when no thread is inside a
+      Stop call any more, or when the programs contain at most one Stop.
+    - [Hwk x], [Hdr x], [H1 x]: number of worker goroutines holding x (taken
+      from the queue, not yet answered) / of drain loops holding x / of
+      workers executing x. *)
+From Garr Require Import Pool.PoolStopDone Pool.PoolAcct Pool.PoolHist Pool.PoolAfterStop Pool.PoolStopCount
+  Pool.PoolLateSubmit Pool.PoolSelect Pool.PoolTimers Pool.PoolLive Pool.PoolProgress Pool.PoolFacts.
+
+(** (C) C12 - no stranding, safety form: an accepted task that has not got its result is in exactly
+    one of: the queue, a live worker goroutine, Stop's drain loop *)
+Theorem C12_Accepted_task_has_owner : forall nw lim autostart choices clients nslots,
+  clients_ok clients -> forall sched x,
+  let c := final (pool nw lim) (pool_cfg nw autostart choices clients nslots) sched in
+  let tr := trace (pool nw lim) (pool_cfg nw autostart choices clients nslots) sched in
+  accepted x tr ->
+  has_task (c_sh c) x /\
+  cnt (p_queue (c_sh c)) x + Hwk x (aths c) + Hdr x (aths c) + length (results c tr x) = 1 /\
+  (1 <= cnt (p_queue (c_sh c)) x <-> In x (p_queue (c_sh c))) /\
+  (1 <= Hwk x (aths c) <->
+     exists i th o l, length clients <= i /\ i - length clients < length (p_spawned (c_sh c)) /\
+       nth_error (c_thr c) i = Some th /\ t_cur th = Some (o, l) /\ worker_pc l = true /\ tokw l = Some x) /\
+  (1 <= Hdr x (aths c) <-> exists i, at_pc c i (XDrainSend x)).
+Proof. exact accepted_task_has_owner. Qed.
+
+(** C04 / C12 - in EVERY reachable configuration a task has at most one result, and it is the right one *)
+Theorem C12_One_result_per_task : forall nw lim autostart choices clients nslots,
+  clients_ok clients -> forall sched x,
+  let c := final (pool nw lim) (pool_cfg nw autostart choices clients nslots) sched in
+  let tr := trace (pool nw lim) (pool_cfg nw autostart choices clients nslots) sched in
+  length (results c tr x) <= 1 /\
+  forall r, In r (results c tr x) ->
+    exists t, get_task (c_sh c) x = Some t /\ res_ok x (tk_execs t) r /\ tk_execs t <= 1.
+Proof. exact one_result_per_task. Qed.
+
+(** (A, end) a submission that starts after the effective Stop has returned is refused: never
+    queued, never held by a worker, never executed, never answered "true"; once it has returned
+    the task has exactly one result, the cancellation result *)
+Theorem C12_Submission_after_Stop_refused : forall nw lim autostart choices clients nslots,
+  clients_ok clients -> forall sched1 sched2 j th o x,
+  let c1 := final (pool nw lim) (pool_cfg nw autostart choices clients nslots) sched1 in
+  let c2 := final (pool nw lim) c1 sched2 in
+  let tr := trace (pool nw lim) (pool_cfg nw autostart choices clients nslots) sched1 ++ trace (pool nw lim) c1 sched2 in
+  stop_done c1 -> nth_error (c_thr c1) j = Some th -> In o (t_prog th) -> sub_id o = Some x ->
+  stop_done c2 /\
+  p_queue (c_sh c2) = [] /\ Hwk x (aths c2) = 0 /\ Hdr x (aths c2) = 0 /\ H1 x (aths c2) = 0 /\
+  (forall t, get_task (c_sh c2) x = Some t -> tk_execs t = 0) /\
+  (forall i o' r, In (ERet i o' r) tr -> sub_id o' = Some x -> r = PU \/ r = PB false) /\
+  (returned x tr ->
+     exists t, get_task (c_sh c2) x = Some t /\ results c2 tr x = [TCanceled] /\ tk_execs t = 0).
+Proof. exact submission_after_stop_refused. Qed.
+
+(** (D) no deadlock while an accepted task waits for its result: started pool, at least one fixed
+    worker, enough goroutine slots, no executor waiting at a closed gate *)
+Theorem C12_Await_not_deadlocked : forall nw lim autostart choices clients nslots,
+  clients_ok clients -> 1 <= nw -> nw + cntdo (concat clients) <= nslots -> forall sched x,
+  let c := final (pool nw lim) (pool_cfg nw autostart choices clients nslots) sched in
+  let tr := trace (pool nw lim) (pool_cfg nw autostart choices clients nslots) sched in
+  1 <= p_state (c_sh c) -> gates_ok c -> accepted x tr -> results c tr x = [] ->
+  exists j, enabled nw lim c j.
+Proof. exact accepted_undelivered_some_thread_enabled. Qed.
+
+Print Assumptions C12_Accepted_task_has_owner.
+Print Assumptions C12_One_result_per_task.
+Print Assumptions C12_Submission_after_Stop_refused.
+Print Assumptions C12_Await_not_deadlocked.
